@@ -506,3 +506,86 @@ Print Assumptions C04_session2_flush_decodes.
 Print Assumptions C04_session2_file_decoded_means.
 Print Assumptions C04_session2_format_decodes.
 Print Assumptions C04_session2_total_clusters_means.
+
+(* ================================================================ THE FAT32 ROOT DIRECTORY on whole images: the write-back of a
+   file's directory entry (DirEntryEditor::flush) - Model/Vol32Root.v vol32_root_flush_entry, the record is
+   Model/VolSession.sess_entry.  On FAT32 set_first_cluster writes BOTH 16-bit words (low: bytes 26-27, high: bytes 20-21). *)
+From FatVerif Require Import Model.VolChainDir Model.Vol32Root Proofs.VolDirProofs Proofs.VolChainDirProofs
+  Proofs.Vol32RootProofs Proofs.Vol32RootFormat Proofs.Vol32RootExamples.
+From FatVerif Require Import Model.VolSession.
+From FatVerif Require Proofs.DirSlotsProofs.
+(* the record the write-back serialises on FAT32 carries the first cluster in BOTH words, whatever the slot held *)
+Theorem C04_vol32_entry_both_words : forall g se fc sz,
+  is32 g = true ->
+  let n := match fc with Some c => c | None => 0 end in
+  se_first_cluster_hi (flushed_entry g se fc sz) = (n / 65536) mod 65536 /\
+  se_first_cluster_lo (flushed_entry g se fc sz) = n mod 65536 /\ se_size (flushed_entry g se fc sz) = sz.
+Proof. exact flushed_entry_words32. Qed.
+
+(* clearing / lowering the first cluster CLEARS the high word (the clause three seeded regressions broke) *)
+Theorem C04_vol32_entry_clears_high_word : forall g se fc sz,
+  is32 g = true ->
+  (fc = None \/ exists c, fc = Some c /\ c < 65536) -> se_first_cluster_hi (flushed_entry g se fc sz) = 0.
+Proof. exact flushed_entry_clears_high. Qed.
+
+(* FAT12/16: the high word of the slot is left as it was *)
+Theorem C04_vol16_entry_keeps_high_word : forall g se fc sz,
+  is32 g = false ->
+  se_first_cluster_hi (flushed_entry g se fc sz) = se_first_cluster_hi se.
+Proof. exact flushed_entry_words16. Qed.
+
+(* it IS the record of the session model (Model/VolSession.sess_entry) *)
+Theorem C04_vol32_sess_entry_is_flushed_entry : forall g h k se b ed sz,
+  h_entry h = Some ed -> ed_size ed = Some sz ->
+  sess_entry g h {| en_slot := k; en_data := se; en_tdirty := b |} = flushed_entry g se (ed_first ed) sz.
+Proof. exact sess_entry_flushed. Qed.
+
+(* the write-back of the entry of a file of the FAT32 root, decoded by Abs.abs of the whole image: the entry's first cluster - read
+   from both words - and size are the editor's, its node follows the chain from that cluster (>= 0x10000 included), every
+   other node unchanged, only bytes of that one slot may change *)
+Theorem C04_vol32_root_flush_entry_decodes : forall im l ls es1 e es2 h ed sz im',
+  root32_ok im l (es1 ++ e :: es2) ls -> Forall (avoids l) (v_root (abs im)) ->
+  e_is_dir e = false -> e_is_dot e = false ->
+  DirSlotsProofs.bytes_ok (nth (N.to_nat (e_sfn_slot e)) (chain_dir_slots (parse_geom im) im l) []) ->
+  byte_at (nth (N.to_nat (e_sfn_slot e)) (chain_dir_slots (parse_geom im) im l) []) 11 < 64 ->
+  h_entry h = Some ed -> ed_size ed = Some sz -> sz < 4294967296 ->
+  (forall c, ed_first ed = Some c -> c < 4294967296) ->
+  vol32_root_flush_entry im (e_sfn_slot e) h = Some im' ->
+  exists e' se',
+    e_cluster e' = (match ed_first ed with Some c => c | None => 0 end) /\ e_size e' = sz /\
+    e_lfn e' = e_lfn e /\ e_lfn_ok e' = e_lfn_ok e /\ e_sfn e' = e_sfn e /\ e_attr e' = e_attr e /\
+    e_first_slot e' = e_first_slot e /\ e_sfn_slot e' = e_sfn_slot e /\
+    root32_ok im' l (es1 ++ e' :: es2) ls /\
+    nth (N.to_nat (e_sfn_slot e)) (chain_dir_slots (parse_geom im) im' l) [] = sfn_encode se' /\
+    se_first_cluster_hi se' = ((match ed_first ed with Some c => c | None => 0 end) / 65536) mod 65536 /\
+    se_first_cluster_lo se' = (match ed_first ed with Some c => c | None => 0 end) mod 65536 /\
+    v_root (abs im') = map (node_of (parse_geom im) im 23) es1
+                       ++ NFile e' (file_chain (parse_geom im) im e') (file_content (parse_geom im) im' e')
+                       :: map (node_of (parse_geom im) im 23) es2 /\
+    ((forall l', file_chain (parse_geom im) im e' = Some l' -> forall x, In x l' -> ~ In x l) ->
+     file_content (parse_geom im) im' e' = file_content (parse_geom im) im e') /\
+    v_labels (abs im') = v_labels (abs im) /\ v_root_issues (abs im') = [] /\ v_root_chain (abs im') = Some l /\
+    chain_frame im im' l /\
+    (forall o, img_get im' o <> img_get im o ->
+       exists i s j, (i < length l)%nat /\ (s < cluster_slots (parse_geom im))%nat /\ (j < 32)%nat /\
+         o = Abs.g_cluster_off (parse_geom im) (nth i l 0) + N.of_nat (32 * s + j) /\
+         (cluster_slots (parse_geom im) * i + s)%nat = N.to_nat (e_sfn_slot e)).
+Proof. exact vol32_root_flush_entry_decodes. Qed.
+
+(* on the formatted 65579-cluster volume: first cluster 0x10004 -> words (1, 4), decoded with the chain [65540]; cleared -> both
+   words zero, decoded as an empty file; a stale high word would decode as first cluster 0x10000 with a Wf issue *)
+Example C04_vol32_high_word_example :
+  slot_words ex32r_hi1 = ([1; 0], [4; 0], [5; 0; 0; 0]) /\
+  root_nodes_view ex32r_hi1 = [(65540, 5, Some [65540], [209; 209; 209; 209; 209])] /\
+  slot_words ex32r_hi2 = ([0; 0], [0; 0], [0; 0; 0; 0]) /\ root_nodes_view ex32r_hi2 = [(0, 0, None, [])] /\
+  Wf.wf_issues (fun l => l) ex32r_hi1 = [] /\ Wf.wf_issues (fun l => l) ex32r_hi2 = [].
+Proof.
+  destruct ex32r_hi_set as (A1 & A2 & A3). destruct ex32r_hi_cleared as (B1 & B2 & B3).
+  split; [exact A1|]. split; [exact A2|]. split; [exact B1|]. split; [exact B2|]. split; [exact A3|exact B3].
+Qed.
+
+Print Assumptions C04_vol32_entry_both_words.
+Print Assumptions C04_vol32_entry_clears_high_word.
+Print Assumptions C04_vol16_entry_keeps_high_word.
+Print Assumptions C04_vol32_sess_entry_is_flushed_entry.
+Print Assumptions C04_vol32_root_flush_entry_decodes.
